@@ -20,9 +20,9 @@ import (
 func init() {
 	Register(&Check{
 		Spec: core.Spec{ID: "C16", Level: "exploration",
-			Rule:        "case = batch of generated operation sequences (<= 40 ops) over 1-6 interleaved writers on a real temporary directory, with the file-name draw forced (tagged setter) through a pool of 1-4 names plus occasional fresh names so collisions with published files, reservations, orphan .tmp files and other writers are the norm; payloads are valid bloom files, truncated ones and garbage. After every operation a 40-line sequential model (name -> reserved / writing / published(bytes) / gone) is compared with the directory listing, with OpenFile of every published pointer, and periodically with the scan. A concurrent variant (goroutine per writer, -race) checks the final state. non-trivial = sequence in which CreateFile had to redraw at least once or a tombstone/abort hit a live artifact; distinct = distinct op sequences",
+			Rule:        "case = batch of generated operation sequences (<= 40 ops) over 1-6 interleaved writers on a real temporary directory, with the file-name draw forced (tagged setter) through a pool of 1-4 names plus occasional fresh names so collisions with published files, reservations, orphan .tmp files and other writers are the norm; payloads are valid bloom files, truncated ones and garbage. After every operation a 40-line sequential model (name -> reserved / writing / published(bytes) / gone) is compared with the directory listing, with OpenFile of every published pointer, and periodically with the scan (a third of the aborts of in-flight writers happen right after a scan has listed the directory, so an entry vanishes under the scan). A concurrent variant (goroutine per writer, -race) checks the final state. non-trivial = sequence in which CreateFile had to redraw at least once or a tombstone/abort hit a live artifact; distinct = distinct op sequences",
 			Assumptions: []string{"a writer whose pointer was tombstoned mid-write is retired (the engine never keeps writing to a pointer it tombstoned)", "the writer is used from one goroutine at a time (DataStore contract); a redundant second Close or an Abort after Close may return anything but must change nothing"},
-			Floors:      map[string]int64{"sequences": 200, "ops": 4000, "collisions_forced": 300}},
+			Floors:      map[string]int64{"sequences": 200, "ops": 4000, "collisions_forced": 300, "scans_with_entry_removed_underneath": 40}},
 		Cases:       func(t string) int { return nQueries(t, 64, 1600) },
 		Run:         runC16,
 		RaceMatters: true,
@@ -175,6 +175,62 @@ func c16Sequence(rc *RunCtx, i, s int, r *core.Rand) {
 				open = append(open, w)
 			}
 		}
+		// scan: compares GetMaybeFilesForQuery with the model; with a victim, that in-flight
+		// writer is aborted right after the scan has listed the directory (tagged point, same
+		// goroutine): its reservation vanishes under the scan, which must go on and list every
+		// published file all the same
+		scanWith := func(victim *c16Writer) (ok bool) {
+			want := map[string]bool{}
+			for b, a := range dat {
+				if a.published {
+					if _, err := extfmt.ParseFooter(a.bytes); err == nil {
+						want[filepath.Join(dir, b+".dat")] = true
+					}
+				}
+			}
+			// every third scan, an in-flight writer is aborted right after the scan has listed
+			// the directory (tagged point, same goroutine): its reservation vanishes under the
+			// scan, which must go on and list every published file all the same
+			if victim != nil {
+				fired := false
+				bs.VerifSetPointHook(func(name string) {
+					if name == "fs.scan.listed" && !fired {
+						fired = true
+						victim.w.(interface{ Abort() error }).Abort()
+					}
+				})
+			}
+			got := map[string]bool{}
+			for f, err := range fs.GetMaybeFilesForQuery(ctx, nil) {
+				if err != nil {
+					bs.VerifSetPointHook(nil)
+					fail("scan-failed", err.Error())
+					return false
+				}
+				got[string(f.PointerBytes)] = true
+			}
+			bs.VerifSetPointHook(nil)
+			ops = append(ops, fmt.Sprintf("scan=%d", len(got)))
+			if victim != nil {
+				ops = append(ops, fmt.Sprintf("abort-during-scan(%s)", victim.base))
+				victim.state = "aborted"
+				delete(dat, victim.base)
+				delete(tmp, victim.base)
+				hitLive++
+				rc.Res.Count("scans_with_entry_removed_underneath", 1)
+			}
+			if len(got) != len(want) {
+				fail("scan-differs-from-model", fmt.Sprintf("scan lists %v, specification says %v", keysOf(got), keysOf(want)))
+				return false
+			}
+			for p := range want {
+				if !got[p] {
+					fail("scan-differs-from-model", fmt.Sprintf("scan misses %s", p))
+					return false
+				}
+			}
+			return true
+		}
 		op := r.Intn(10)
 		switch {
 		case op <= 2 && len(open) < 6: // create
@@ -244,6 +300,10 @@ func c16Sequence(rc *RunCtx, i, s int, r *core.Rand) {
 			w.state = "closed"
 			dat[w.base] = &art{published: true, bytes: append([]byte(nil), w.buf...)}
 			delete(tmp, w.base)
+		case op == 6 && len(open) > 0 && r.Intn(3) == 0: // abort while a scan is between listing and reading
+			if !scanWith(core.Pick(r, open)) {
+				return
+			}
 		case op == 6 && len(open) > 0: // abort
 			w := core.Pick(r, open)
 			err := w.w.(interface{ Abort() error }).Abort()
@@ -313,32 +373,8 @@ func c16Sequence(rc *RunCtx, i, s int, r *core.Rand) {
 				w.state = "gone"
 			}
 		default: // scan
-			want := map[string]bool{}
-			for b, a := range dat {
-				if a.published {
-					if _, err := extfmt.ParseFooter(a.bytes); err == nil {
-						want[filepath.Join(dir, b+".dat")] = true
-					}
-				}
-			}
-			got := map[string]bool{}
-			for f, err := range fs.GetMaybeFilesForQuery(ctx, nil) {
-				if err != nil {
-					fail("scan-failed", err.Error())
-					return
-				}
-				got[string(f.PointerBytes)] = true
-			}
-			ops = append(ops, fmt.Sprintf("scan=%d", len(got)))
-			if len(got) != len(want) {
-				fail("scan-differs-from-model", fmt.Sprintf("scan lists %v, specification says %v", keysOf(got), keysOf(want)))
+			if !scanWith(nil) {
 				return
-			}
-			for p := range want {
-				if !got[p] {
-					fail("scan-differs-from-model", fmt.Sprintf("scan misses %s", p))
-					return
-				}
 			}
 		}
 		if !check(ops[len(ops)-1]) {
